@@ -333,6 +333,42 @@ def kw_json(fn, kw):
             **{f"{k}.shape": list(v.shape) for k, v in kw.items() if isinstance(v, torch.Tensor)}}
 
 
+def tdesc(t: torch.Tensor):
+    return {"shape": list(t.shape), "dtype": str(t.dtype).replace("torch.", ""), "data": t.tolist()}
+
+
+def is_tdesc(v):
+    return isinstance(v, dict) and {"shape", "dtype", "data"} <= set(v)
+
+
+def tundesc(d) -> torch.Tensor:
+    return torch.tensor(d["data"], dtype=getattr(torch, d["dtype"])).reshape(tuple(d["shape"]))
+
+
+def case_desc(fn, kw):
+    """replayable description of a functional case: every tensor with its dtype and shape, every parameter as the python
+    value it is (None, str, int, float keep their type through JSON)"""
+    return {"fn": fn, "kwargs": {k: (tdesc(v) if isinstance(v, torch.Tensor) else v) for k, v in kw.items()}}
+
+
+def case_from_desc(c):
+    return c["fn"], {k: (tundesc(v) if is_tdesc(v) else v) for k, v in c["kwargs"].items()}
+
+
+def definition_verdict(fn, kw, real):
+    """the definition oracle on one functional case and its real outcome: (agrees: True | False | None = the definition does
+    not cover the case, definition values).  Used by the sweep, by search() and by replay()."""
+    exp = oracle(fn, kw)
+    return oracle_agrees(real, exp), exp
+
+
+def definition_violation(fn, kw, real, exp, extra=None):
+    rj = real[1] if real[0] == "err" else [t.tolist() for t in real[1]]
+    dj = [str(x) for x in exp] if exp else None
+    return (f"C05|{fn}|{cfg_of(kw)}|differs-from-definition", f"{fn} returns {rj} where the definition gives {dj}",
+            {"kind": "functional", "case": case_desc(fn, kw), "real": rj, "definition": dj, **(extra or {})})
+
+
 def real_call(fn, kw):
     kw = dict(kw)
     a = [kw.pop("input"), kw.pop("target")]
@@ -374,18 +410,16 @@ def check_chunk(rep: Report, cases, stream: str, always_oracle: bool, state: dic
         exp = None
         agrees = None
         if msg is not None or (always_oracle and real[0] == "ok"):
-            exp = oracle(fn, kw)
-            agrees = oracle_agrees(real, exp)
+            agrees, exp = definition_verdict(fn, kw, real)
             if exp is not None:
                 rep.count("oracle-evaluated")
         if msg is None and agrees is not False:
             continue
         state["bad"] += 1
-        replay = {"case": kw_json(fn, kw), "real": real[1] if real[0] == "err" else [t.tolist() for t in real[1]],
+        replay = {"kind": "functional", "case": case_desc(fn, kw), "real": real[1] if real[0] == "err" else [t.tolist() for t in real[1]],
                   "model": o, "definition": [str(x) for x in exp] if exp else None, "mismatch": msg}
         if agrees is False:
-            rep.violation(f"C05|{fn}|{cfg_of(kw)}|differs-from-definition",
-                          f"{fn} returns {replay['real']} where the definition gives {replay['definition']}", replay)
+            rep.violation(*definition_violation(fn, kw, real, exp, {"model": o, "mismatch": msg}))
         else:
             rep.broke(f"correspondence:{stream}:{fn}", f"model and implementation disagree ({msg}); definition oracle "
                       + ("agrees with the implementation" if agrees else "does not cover this case"), replay)
@@ -454,12 +488,46 @@ def class_programs(rep: Report, rng: Rng):
 
 # ------------------------------------------------------------------ dtype stream (real code vs the definition)
 
+DTYPE_FORMS = ("binary_auroc", "binary_auprc", "BinaryAUROC", "BinaryAUPRC")
+DTYPE_TOL = 1e-5
+
+
+def dtype_expected(name, x: torch.Tensor, t: torch.Tensor):
+    """the definition (exact fractions) of AUROC / AUPRC on the recorded scores: every half / double precision value is a rational"""
+    xs = [Fr(v) for v in x.reshape(-1).tolist()]
+    ts = [int(v) for v in t.reshape(-1).tolist()]
+    if name in ("binary_auroc", "BinaryAUROC"):
+        return o_auroc(xs, ts, [Fr(1)] * len(xs))
+    curve = o_curve(xs, [v == 1 for v in ts])
+    return o_auprc(curve[0], curve[1])
+
+
+def dtype_real(name, x: torch.Tensor, t: torch.Tensor, split: int):
+    """the real functional, or the real class fed the stream in two batches cut at `split`"""
+    import torcheval.metrics as M
+    if name in ("binary_auroc", "binary_auprc"):
+        return call_real(getattr(F, name), x, t)
+
+    def run_cls():
+        m = getattr(M, name)()
+        m.update(x[:split], t[:split]); m.update(x[split:], t[split:])
+        return m.compute()
+    return call_real(run_cls)
+
+
+def dtype_holds(real, exp):
+    """(holds, value): a dtype the function refuses is not a wrong value (holds = True, value None)"""
+    if real[0] != "ok":
+        return True, None
+    got = float(real[1][0].reshape(-1)[0])
+    return abs(got - float(exp)) <= DTYPE_TOL * max(1.0, abs(float(exp))), got
+
+
 def dtype_stream(rep: Report, rng: Rng):
     """Scores arrive in half precision, double precision or as integers in practice.  Grid-valued scores are exact in
     every one of these dtypes, so the definition (exact fractions) is the same — but counts of several hundred samples
     are not representable in float16 / bfloat16, so any internal counting done in the score dtype shows here.
     Functional and class forms, n large enough to pass 256 and 2048, weights absent (the class creates its own)."""
-    import torcheval.metrics as M
     reps = 2 if rep.tier == "quick" else 10
     for r in range(reps):
         for dt in (torch.float16, torch.bfloat16, torch.float64):
@@ -468,29 +536,22 @@ def dtype_stream(rep: Report, rng: Rng):
             ts = [rng.choice([0, 1]) for _ in range(n)]
             x = torch.tensor([float(v) for v in xs], dtype=dt)
             t = torch.tensor(ts, dtype=torch.int64)
-            exp_auroc = o_auroc(xs, ts, [Fr(1)] * n)
-            curve = o_curve(xs, [v == 1 for v in ts])
-            exp_auprc = o_auprc(curve[0], curve[1])
-            cases = [("binary_auroc", call_real(F.binary_auroc, x, t), exp_auroc),
-                     ("binary_auprc", call_real(F.binary_auprc, x, t), exp_auprc)]
-            for cls, exp in ((M.BinaryAUROC, exp_auroc), (M.BinaryAUPRC, exp_auprc)):
-                def run_cls(cls=cls):
-                    m = cls()
-                    h = n // 3
-                    m.update(x[:h], t[:h]); m.update(x[h:], t[h:])
-                    return m.compute()
-                cases.append((cls.__name__, call_real(run_cls), exp))
-            for name, real, exp in cases:
+            exps = {"binary_auroc": dtype_expected("binary_auroc", x, t), "binary_auprc": dtype_expected("binary_auprc", x, t)}
+            exps["BinaryAUROC"], exps["BinaryAUPRC"] = exps["binary_auroc"], exps["binary_auprc"]
+            split = n // 3
+            for name in DTYPE_FORMS:
+                real, exp = dtype_real(name, x, t, split), exps[name]
+                dts = str(dt).replace("torch.", "")
                 rep.case(nontrivial_key=("dtype", name, str(dt), n, r), sample=None)
-                rep.count(f"dtype-stream:{str(dt).replace('torch.', '')}")
+                rep.count(f"dtype-stream:{dts}")
                 if real[0] != "ok":
-                    rep.count(f"dtype-stream:raises:{name}:{str(dt).replace('torch.', '')}")
-                    continue            # a dtype the function refuses is not a wrong value
-                got = float(real[1][0].reshape(-1)[0])
-                if not (abs(got - float(exp)) <= 1e-5 * max(1.0, abs(float(exp)))):
-                    rep.violation(f"C05|{name}|{str(dt).replace('torch.', '')}-scores|differs-from-definition",
-                                  f"{name} on {n} grid-valued {str(dt).replace('torch.', '')} scores returns {got} where the definition gives {float(exp)}",
-                                  {"kind": "dtype", "fn": name, "dtype": str(dt), "input": [float(v) for v in xs], "target": ts, "expected": float(exp), "got": got})
+                    rep.count(f"dtype-stream:raises:{name}:{dts}")
+                holds, got = dtype_holds(real, exp)
+                if not holds:
+                    rep.violation(f"C05|{name}|{dts}-scores|differs-from-definition",
+                                  f"{name} on {n} grid-valued {dts} scores returns {got} where the definition gives {float(exp)}",
+                                  {"kind": "dtype", "fn": name, "input": tdesc(x), "target": tdesc(t), "split": split,
+                                   "expected": float(exp), "got": got})
                     return
 
 def run(rep: Report):
@@ -510,46 +571,54 @@ def search(rep: Report):
     for k, (fn, kw, tag) in enumerate(all_cases(rng, "thorough")):
         if k % 512 == 0 and time.time() > deadline:
             return
-        exp = oracle(fn, kw)
-        if exp is None:
+        if oracle(fn, kw) is None:
             continue
         real = real_call(fn, kw)
-        if real[0] == "ok" and oracle_agrees(real, exp) is False:
-            rep.violation(f"C05|{fn}|{cfg_of(kw)}|differs-from-definition", f"{fn} differs from the definition",
-                          {"case": kw_json(fn, kw), "real": [t.tolist() for t in real[1]], "definition": [str(x) for x in exp]})
+        agrees, exp = definition_verdict(fn, kw, real)
+        if real[0] == "ok" and agrees is False:
+            rep.violation(*definition_violation(fn, kw, real, exp))
             return
 
 
-def _replay_dtype(r) -> bool:
-    import torcheval.metrics as M
-    dt = {"torch.float16": torch.float16, "torch.bfloat16": torch.bfloat16, "torch.float64": torch.float64}[r["dtype"]]
-    x = torch.tensor(r["input"], dtype=dt); t = torch.tensor(r["target"], dtype=torch.int64)
-    n = len(r["input"]); h = n // 3
-    def cls_run(cls):
-        m = cls(); m.update(x[:h], t[:h]); m.update(x[h:], t[h:]); return m.compute()
-    f = {"binary_auroc": lambda: F.binary_auroc(x, t), "binary_auprc": lambda: F.binary_auprc(x, t),
-         "BinaryAUROC": lambda: cls_run(M.BinaryAUROC), "BinaryAUPRC": lambda: cls_run(M.BinaryAUPRC)}[r["fn"]]
-    real = call_real(f)
-    if real[0] != "ok":
-        return True
-    got = float(real[1][0].reshape(-1)[0])
-    return abs(got - r["expected"]) <= 1e-5 * max(1.0, abs(r["expected"]))
+def _nothing(reason):
+    raise ValueError(f"nothing to replay: {reason}")
 
 
 def replay(payload) -> bool:
-    if payload["replay"].get("kind") == "dtype":
-        return _replay_dtype(payload["replay"])
-    c = payload["replay"]["case"]
-    fn = c["fn"]
-    kw = {}
-    for k, v in c.items():
-        if k == "fn" or k.endswith(".shape"):
-            continue
-        if k in ("input", "target", "weight"):
-            dt = torch.int64 if k == "target" else torch.float32
-            kw[k] = torch.tensor(v, dtype=dt).reshape(c[k + ".shape"])
-        else:
-            kw[k] = v
-    exp = oracle(fn, kw)
-    real = real_call(fn, kw)
-    return real[0] != "ok" or oracle_agrees(real, exp) is not False
+    """True iff the property holds on the recorded input.
+    `kind: functional` -> the call is rebuilt (tensors with their recorded dtype and shape, parameters as recorded), run on the
+                          real code and judged by `definition_verdict` (the oracle of the sweep and of search());
+    `kind: dtype`      -> the recorded half / double precision scores through `dtype_real` / `dtype_expected` / `dtype_holds`."""
+    if not isinstance(payload, dict) or payload.get("kind", "failing-input") != "failing-input":
+        _nothing(f"payload kind {payload.get('kind') if isinstance(payload, dict) else None!r} carries no concrete input")
+    r = payload.get("replay")
+    if not isinstance(r, dict) or not r:
+        _nothing("the payload carries no replay dict")
+    kind = r.get("kind")
+    if kind == "dtype":
+        if r.get("fn") not in DTYPE_FORMS or not is_tdesc(r.get("input")) or not is_tdesc(r.get("target")) or "split" not in r:
+            _nothing("dtype-stream payload without the recorded tensors (dtype, shape, data), form name and batch split")
+        x, t = tundesc(r["input"]), tundesc(r["target"])
+        exp = dtype_expected(r["fn"], x, t)
+        real = dtype_real(r["fn"], x, t, int(r["split"]))
+        holds, got = dtype_holds(real, exp)
+        print(f"replay: {r['fn']} on {x.numel()} {r['input']['dtype']} scores: " + (f"raised {real[1]} (a refused dtype is not a wrong value)" if real[0] != "ok"
+              else f"returns {got}, the definition gives {float(exp)}"))
+        return bool(holds)
+    if kind == "functional":
+        c = r.get("case")
+        if not isinstance(c, dict) or "fn" not in c or not isinstance(c.get("kwargs"), dict) or not all(is_tdesc(c["kwargs"].get(k)) for k in ("input", "target")):
+            _nothing("functional payload without a case description {fn, kwargs: tensors with dtype and shape}")
+        fn, kw = case_from_desc(c)
+        if not hasattr(F, fn):
+            _nothing(f"unknown functional {fn!r}")
+        real = real_call(fn, kw)
+        agrees, exp = definition_verdict(fn, kw, real)
+        if agrees is None:
+            _nothing(f"the definition oracle does not cover this {fn} input")
+        if agrees is False:
+            print(f"replay: {definition_violation(fn, kw, real, exp)[1]}"[:600])
+        return agrees is True
+    if kind is None and "case" in r:
+        _nothing("case recorded without tensor dtypes (old format): it cannot be rebuilt faithfully")
+    _nothing(f"replay kind {kind!r} is neither `functional` nor `dtype`")
